@@ -433,8 +433,11 @@ func (g *Gen) macro() {
 	if g.cfg.POps > 0 {
 		nk = 9 // operation-subset re-adds only where the check quantifies over requested operation sets
 	}
-	kind := rapid.IntRange(0, nk+5).Draw(t, "macro-kind")
-	if kind > nk {
+	kind := rapid.IntRange(0, nk+8).Draw(t, "macro-kind")
+	switch {
+	case kind > nk+5:
+		kind = 7 // the re-add between the two records that end a watch: three more shares
+	case kind > nk:
 		kind = 10 + (kind - nk - 1)
 	}
 	switch kind {
